@@ -415,6 +415,30 @@ def onRepr {ρ α} (other : Handle) (m : M ρ α) : M ρ α := fun s =>
   | .pcb s' => .pcb { s' with self := s.self }
   | .ub u => .ub u
 
+/-! ## Iterators handed in by the caller: user code as data
+
+An `IntoIterator<Item = char>` / `<Item = &str>` (or `String`, `Box<str>`, `Cow<str>`: all read as `&str`) is its
+size hint and the items it yields; `none` = `next()` panics there. -/
+
+structure CharIter where
+  hint : Nat
+  items : List (Option Chr)
+structure StrIter where
+  items : List (Option Str)
+
+/-- `for x in items { body }`: a panicking `next()` unwinds through the loop -/
+def forLoop {ρ ι} (body : ι → M ρ Unit) : List (Option ι) → M ρ Unit
+  | [] => pure ()
+  | none :: _ => fun s => .pcb s
+  | some x :: rest => bind (body x) fun _ => forLoop body rest
+
+def CharIter.rs_into_iter {ρ} (it : CharIter) : M ρ CharIter := pure it
+def CharIter.rs_copied {ρ} (it : CharIter) : M ρ CharIter := pure it
+def CharIter.rs_size_hint {ρ} (it : CharIter) : M ρ (Nat × Option Nat) := pure (it.hint, none)
+def CharIter.rs_for_each {ρ} (it : CharIter) (body : Chr → M ρ Unit) : M ρ Unit := forLoop body it.items
+def StrIter.rs_into_iter {ρ} (it : StrIter) : M ρ StrIter := pure it
+def StrIter.rs_for_each {ρ} (it : StrIter) (body : Str → M ρ Unit) : M ρ Unit := forLoop body it.items
+
 /-! ## Constants the source names -/
 
 def MAX_INLINE_SIZE : Nat := MAX_INLINE
